@@ -74,7 +74,7 @@ func runC05(c *kernel.Ctx) {
 	c.SleepToEpoch()
 	campaign := c.Params["campaign"]
 	if campaign == "" {
-		campaign = []string{"A", "A", "B", "B", "C", "D", "E"}[t.Choose(7)]
+		campaign = []string{"A", "A", "B", "B", "C", "D", "E", "F"}[t.Choose(8)]
 	}
 	// campaign D: schedules only, plus gossip arriving on two links of one broker
 	// at the same time (the mesh runs one receive goroutine per link): the two
@@ -89,7 +89,7 @@ func runC05(c *kernel.Ctx) {
 	}
 	verifyield.Hook = baton.Hook
 	defer func() { baton.ReleaseAll(); verifyield.Hook = nil }()
-	if campaign == "E" {
+	if campaign == "E" || campaign == "F" {
 		// campaign E: a client's subscribe / unsubscribe served by its connection goroutine
 		// while a gossip payload for the same broker is being merged by a link goroutine.
 		// Scheduling points: the ones tools/autoyield puts around every mutex operation of
@@ -194,6 +194,8 @@ func runC05(c *kernel.Ctx) {
 			w.concurrentDeliver(baton)
 		case k < 60 && campaign == "E":
 			w.concurrentLocal(baton)
+		case k < 55 && campaign == "F":
+			w.concurrentEvents(baton)
 		case k < 75:
 			cl.NetStep()
 		case k < 90:
@@ -433,6 +435,110 @@ func (w *c05World) concurrentLocal(baton *kernel.Baton) {
 	baton.ReleaseAll()
 	world.Settle()
 	cc.cl.Recv()
+}
+
+// concurrentEvents (campaign F): the mesh library calls a broker from several goroutines - one per
+// link for what arrives on it, its own for "this peer has become unreachable" - and whatever is
+// enabled in the simulated transport may therefore overlap: here up to three transport events
+// (deliveries on different links, garbage-collection notifications, link-ups with their complete
+// state) each run in a goroutine of their own, started at tape-chosen moments while the others are
+// parked somewhere inside the broker, interleaved at the boundaries of swarm.go and
+// internal/event/crdt. Never two deliveries of one directed link at once (one goroutine per link).
+func (w *c05World) concurrentEvents(baton *kernel.Baton) {
+	c, cl, t := w.c, w.cl, w.c.Tape
+	cl.Net.Canonicalise()
+	started := map[string]bool{}
+	busyLink := map[[2]mesh.PeerName]bool{}
+	nstarted := 0
+	pickNew := func() (mesh.Event, bool) {
+		var cands []mesh.Event
+		for _, e := range cl.Net.Enabled() {
+			if e.Kind == "send" || started[e.String()] {
+				continue // picking a payload for a link is the library's own sender goroutine: not inside a broker
+			}
+			if e.Kind == "deliver" && busyLink[[2]mesh.PeerName{e.A, e.B}] {
+				continue
+			}
+			cands = append(cands, e)
+		}
+		if len(cands) == 0 {
+			return mesh.Event{}, false
+		}
+		// notifications that a peer has gone are what the campaign is after: prefer them
+		var gcs []mesh.Event
+		for _, e := range cands {
+			if e.Kind == "gc" {
+				gcs = append(gcs, e)
+			}
+		}
+		if len(gcs) > 0 && t.Chance(2, 3) {
+			return gcs[t.Choose(len(gcs))], true
+		}
+		return cands[t.Choose(len(cands))], true
+	}
+	if _, ok := pickNew(); !ok {
+		cl.NetStep()
+		return
+	}
+	cl.Latency()
+	baton.SetActive(true)
+	done := make(chan struct{}, 8)
+	var cur uint64
+	for n := 0; n < 3000; n++ {
+		world.Settle()
+		pk := baton.Parked()
+		var e mesh.Event
+		canStart := false
+		if nstarted < 3 {
+			e, canStart = pickNew()
+		}
+		if len(pk) == 0 && !(canStart && nstarted == 0) {
+			if baton.Waiting() > 0 {
+				c.Harnessf("campaign F: %d tasks parked, none can run", baton.Waiting())
+			}
+			break
+		}
+		if canStart && (len(pk) == 0 || t.Chance(1, 6)) {
+			started[e.String()] = true
+			if e.Kind == "deliver" {
+				busyLink[[2]mesh.PeerName{e.A, e.B}] = true
+			}
+			nstarted++
+			c.Logf("net %s runs in a goroutine of its own (%d parked)", e, len(pk))
+			if e.Kind == "gc" {
+				c.Probe("campaign-F-gc-notification-concurrent")
+			}
+			c.Fault("concurrent-transport-events")
+			ev := e
+			go func() {
+				cl.Net.Do(ev)
+				done <- struct{}{}
+			}()
+			continue
+		}
+		// sticky: the task that ran last mostly runs on (deep into its critical sections)
+		var p *kernel.Parked
+		for _, q := range pk {
+			if q.Goid == cur && !t.Chance(1, 5) {
+				p = q
+			}
+		}
+		if p == nil {
+			p = pk[t.Choose(len(pk))]
+		}
+		cur = p.Goid
+		c.Logf("  task crosses %s (%d of %d can run)", p.Site, len(pk), baton.Waiting())
+		time.Sleep(time.Microsecond)
+		if baton.Waiting() > len(pk) {
+			c.Probe("task-kept-parked-because-mutex-is-held")
+		}
+		baton.Release(p)
+	}
+	baton.ReleaseAll()
+	world.Settle()
+	for _, cc := range w.live() {
+		cc.cl.Recv()
+	}
 }
 
 // keepalive: idle clients ping so that the broker's 120 s read deadline never ends them.
